@@ -526,6 +526,11 @@ func (v *Validator) typeOfComparison(env *requestEnv, left, right ast.IsNode, ca
 	if rightExpectErr != nil {
 		errs = append(errs, rightExpectErr)
 	}
+	// Both operands are comparable on their own; they must also be comparable with each
+	// other: Long with Long, datetime with datetime, duration with duration.
+	if len(errs) == 0 && lt != nil && rt != nil && cedarTypeName(lt) != cedarTypeName(rt) {
+		errs = append(errs, typeIncompatErr(lt, rt))
+	}
 
 	if len(errs) > 0 {
 		return typeBool{}, caps, errors.Join(errs...)
